@@ -93,14 +93,43 @@ def row_metrics(y_true_row, y_pred_row, k):
   return out
 
 
+# Rows where "1 - rate" and the safe-divided complement differ: an empty
+# ranking has false discovery rate fp / (tp + fp) = 0 / 0 -> 0 by the
+# zero-denominator convention, but 1 - precision = 1; same for the miss rate of
+# a row without true labels. Both readings are accepted (see `oracle`).
+AMBIGUOUS_COMPLEMENTS = ('false_discovery_rate', 'miss_rate')
+
+
 def oracle(y_true, y_pred, k_list):
-  """-> {metric: [mean over rows at k for k in sorted(k_list)]} (k_list None -> 1)."""
-  ks = sorted(k_list) if k_list else [None]
+  """-> {metric: [mean over rows at k for k in k_list]} (k_list None -> 1 value).
+
+  Positionally aligned with the requested k_list (any order, duplicates kept).
+  Key '_alt': {metric: [...]} for AMBIGUOUS_COMPLEMENTS, the value when an
+  empty row counts 1 instead of 0 (only differs when there are empty rows).
+  """
+  ks = list(k_list) if k_list else [None]
   out = {m: [] for m in METRICS}
+  alt = {m: [] for m in AMBIGUOUS_COMPLEMENTS}
+  cache = {}
   for k in ks:
-    rows = [row_metrics(t, p, k) for t, p in zip(y_true, y_pred)]
+    if k not in cache:
+      rows = [row_metrics(t, p, k) for t, p in zip(y_true, y_pred)]
+      means = {m: cm.mean(r[m] for r in rows) for m in METRICS}
+      alts = {
+          'false_discovery_rate': cm.mean(
+              r['false_discovery_rate'] if len(p) else Fraction(1)
+              for r, p in zip(rows, y_pred)),
+          'miss_rate': cm.mean(
+              r['miss_rate'] if len(set(t)) else Fraction(1)
+              for r, t in zip(rows, y_true)),
+      }
+      cache[k] = (means, alts)
+    means, alts = cache[k]
     for m in METRICS:
-      out[m].append(cm.mean(r[m] for r in rows))
+      out[m].append(means[m])
+    for m in AMBIGUOUS_COMPLEMENTS:
+      alt[m].append(alts[m])
+  out['_alt'] = alt
   return out
 
 
@@ -116,17 +145,31 @@ def as_rows(y, input_type):
 # ---------------------------------------------------------------------------
 
 
-def thresholded_oracle(y_true, y_pred, y_prob, thresholds):
+def to_float32(x):
+  """The float32 nearest to x, as a python float (pure python rounding)."""
+  import struct
+  return struct.unpack('f', struct.pack('f', float(x)))[0]
+
+
+def thresholded_oracle(y_true, y_pred, y_prob, thresholds, quantize=None):
   """Per threshold t: predictions are the items with prob > t.
 
   precision = #(predicted items with prob > t that are true)
               / #(predicted items with prob > t)
   recall    = #(true items predicted with prob > t) / #(true items)
   No probabilities -> every prediction has probability 1.
+
+  quantize: optional rounding applied to every probability and threshold
+  before the (exact) comparison, e.g. `to_float32` for single precision
+  semantics. One and the same comparison decides "predicted positive" and
+  "true positive" of an item.
   """
+  q = quantize or (lambda v: v)
   out = {'precision': [], 'recall': [], 'f1_score': []}
+  if y_prob is not None:
+    y_prob = [[q(p) for p in row] for row in y_prob]
   for t in sorted(thresholds):
-    t = cm.frac(t)
+    t = cm.frac(q(t))
     tp_pred = n_pred = tp_true = n_true = 0
     for i, (tr, pr) in enumerate(zip(y_true, y_pred)):
       probs = [1] * len(pr) if y_prob is None else y_prob[i]
